@@ -54,7 +54,9 @@ CHECKS = {
              "under Inv a run with ANYTREE_ASSERTIONS on is the same run as with it off - every call, any fault oracle, "
              "any fuel (relational Hoare logic over the setter monad, Proofs/MutAssert.v); C01_forest_partition / "
              "C01_forest_after_every_history: under Inv - hence after every history - each node lies in the unfolding "
-             "(tree_of) of exactly one parentless node, the unfolding is closed under children and stays inside one tree. "
+             "(tree_of) of exactly one parentless node, the unfolding is closed under children, stays inside one tree "
+             "and lists no node twice; C01_roots_partition_universe: the roots' unfoldings concatenated are a "
+             "permutation of the node universe. "
              "Tie: every forest <= 3 nodes "
              "x every call x 5 classes x all single fault positions / persistent vetoes / sampled doubles x "
              "ANYTREE_ASSERTIONS 0/1 + random live histories, a sixth of the cases on node classes with user-defined "
